@@ -1,13 +1,24 @@
 ----------------------------- MODULE ConfResolveGen -----------------------------
 (* Enumeration of the admissible results: every final state of the specification's rewriting system is
    printed with its root; the set of lines with the same root is the admissible set of that root
-   (INVARIANT Emit).  ConfResolveImplGen does the same for the implementation-shaped model. *)
-EXTENDS ConfResolve, Json
+   (INVARIANT Emit).  ConfResolveImplGen does the same for the implementation-shaped model.
 
-Emit == phase = "done" => PrintT(<<"BEH", ToJson([r |-> root.s, d |-> root.def, tb |-> root.tab, w |-> wrap, o |-> cur])>>)
+   The history variable `lib` records which of the liberal rules (U1, U2, U3 of ConfResolve) a behaviour
+   met.  checks/C12.py requires that every root with more than one final value has a final state with
+   lib # {}: outside the points where the statement is silent the result does not depend on the order of
+   rewriting (confluence of the specification). *)
+EXTENDS ConfResolve, Json
+VARIABLE lib
+
+U1Met == phase = "run" /\ cur.t = "str" /\ \E p \in RefPairs(cur.s, root.def) : Doubtful(cur.s, p)
+U2Met == phase = "run" /\ cur.t = "str" /\ emb /\ RefPairs(cur.s, root.def) = {<<1, Len(cur.s)>>}
+U3Met == NonRefNested
+GenNext == /\ NextSingle
+           /\ lib' = lib \cup (IF U1Met THEN {"U1"} ELSE {}) \cup (IF U2Met THEN {"U2"} ELSE {}) \cup (IF U3Met THEN {"U3"} ELSE {})
+GenSpec == Init /\ lib = {} /\ [][GenNext]_<<vars, lib>>
+
+Emit == phase = "done" => PrintT(<<"BEH", ToJson([r |-> root.s, d |-> root.def, tb |-> root.tab, w |-> wrap, o |-> cur, lib |-> lib])>>)
 
 \* the provider tables, for the Go driver (environment of the real envprovider)
 ASSUME PrintT(<<"TAB", ToJson([tb \in Tabs |-> [n \in Names |-> [kind |-> Table[tb][n].kind, text |-> Table[tb][n].text]]])>>)
-
-GenSpec == Spec
 =============================================================================
